@@ -33,8 +33,8 @@ def _emit(ev):
 
 def _letters(eq):
     lhs, rhs = eq.split("->")
-    codes = {}
-    return [codes.setdefault(c, len(codes)) for c in lhs], [codes.setdefault(c, len(codes)) for c in rhs]
+    # codes keep the order of the characters (the fermionic einsum sorts traced letters by character)
+    return [ord(c) - 96 for c in lhs], [ord(c) - 96 for c in rhs]
 
 
 def _args_for(op, args, kwargs, objs):
